@@ -7,7 +7,7 @@ CASES = {'quick': 1500, 'thorough': 40000}
 GATES = {
     'quick': {'evaluations': 30000, 'getter_checks': 25000, 'setter_checks': 3000, 'setter_nonempty_readback': 1500,
               'model_next_to_zero_width': 2000, 'classes_checked': 25, 'setter_crlf': 150,
-              'runs_split_by_zero_width_token': 100},
+              'runs_split_by_zero_width_token': 100, 'post_write_neighbour_sweeps': 150},
     'thorough': {'evaluations': 800000, 'classes_checked': 30},
 }
 SPACINGS = ['', ' ', '\n', '\r\n', '  \t', '\n\n', ' \n\t \n', '\t', '    ', '\r\n\r\n', ' \r\n ', '\n ']
@@ -17,7 +17,7 @@ RULE = ('case = one accepted generated document (both attribution modes; stores 
         'spacing accessors except the root, spacing_before/after == the maximal run of S characters adjacent to its first/last '
         'character (so two neighbours necessarily agree). Setter evaluation (4..8 per document, fresh parse each): after assigning one '
         'of 12 spacing strings the printed text == text with exactly that run replaced, and a non-empty string reads back. '
-        'Non-trivial = the run is non-empty or the assigned string is; distinct = hash(text, path, side, string).')
+        'After a setter that replaces pure line ends by pure line ends (no blanks on either side; the printed text lexes into the same non-empty tokens the edited store holds), all models of the edited tree must read the same spacing as the models of a fresh parse of the printed text (neighbour agreement after the write). Non-trivial = the run is non-empty or the assigned string is; distinct = hash(text, path, side, string).')
 ASSUMPTIONS = ['spacing strings are drawn from [ \\t]+ and \\r?\\n groups, the domain the statement names']
 
 
@@ -131,6 +131,29 @@ def run_case(col, r, idx):
                 if rb != s:
                     col.violation(f'setter-readback:{side}', f'assigned {s!r}, reads back {rb!r}', wit)
                     return
+            # neighbours after the write: where the new run is pure line ends replacing pure line ends (nothing a lexer would place
+            # differently), every model of the edited tree must see the spacing a fresh parse of the printed text sees.
+            nl_only = lambda t: bool(t) and not t.replace('\r\n', '').replace('\n', '')
+            lo, hi = (i, a) if side == 'before' else (b, j)
+            if nl_only(s) and nl_only(old) and not (lo and full[lo - 1].isspace()) and not (hi < len(full) and full[hi].isspace()):
+                try:
+                    f2 = P.parse(got, models.File, auto_claim_comments=acl)
+                except Exception:
+                    f2 = None
+                same_lexemes = f2 is not None and [t.raw_text for t in f2.token_store if t.raw_text] == [t.raw_text for t in f.token_store if t.raw_text]
+                if same_lexemes and walker.digest(f2, comments='keep') == walker.digest(f, comments='keep'):
+                    t1, t2 = targets(f), targets(f2)
+                    if [p for p, _ in t1] == [p for p, _ in t2]:
+                        col.count('post_write_neighbour_sweeps')
+                        for (p1, m1), (_, m2) in zip(t1, t2):
+                            for sd in ('spacing_before', 'spacing_after'):
+                                col.ev()
+                                g1, g2 = getattr(m1, sd), getattr(m2, sd)
+                                if g1 != g2:
+                                    col.violation(f'neighbour-after-write:{side}', f'after {type(m).__name__}.spacing_{side} = {s!r} at {path}, '
+                                                  f'{type(m1).__name__} at {p1} reads {sd} == {g1!r}; in a fresh parse of the printed text it is {g2!r}',
+                                                  dict(wit, got=got))
+                                    return
         if idx % 307 == 0:
             col.sample({'text': text, 'models_checked': len(ms), 'last_setter': {'path': path, 'side': side, 'assigned': s}})
     finally:
